@@ -1,6 +1,6 @@
 (* C18 — The penalty filter is a Pareto front.
    Only statements here; each is closed by `exact` of a lemma from proofs/. *)
-From Verif Require Import Penalty FilterProofs.
+From Verif Require Import Penalty FilterProofs FilterProofs2.
 
 Section C18.
   Variable T : Type.                       (* any carrier: floats without NaN, Q, ... *)
@@ -65,6 +65,24 @@ Theorem C18_Q_front : forall h,
   /\ (forall e q, In e es -> In q h -> dominates qle q e = true -> dominates qle e q = true).
 Proof. exact (run_is_pareto_front Q qle qle_refl qle_trans). Qed.
 
+(* 6. size and distinctness over whole histories (instance Q with <=): one verdict per offered point, never more
+      entries than acceptances (so never more than points offered), entries pairwise distinct, and a stored entry
+      offered again is refused *)
+Theorem C18_Q_size : forall h,
+  let r := filter_run qle [] h in
+  length (snd r) = length h
+  /\ (length (fst r) <= count_true (snd r))%nat /\ (count_true (snd r) <= length h)%nat.
+Proof.
+  intros h r. destruct (run_length Q qle h []) as [A B]. fold r in A, B. cbn [length] in B.
+  repeat split; [exact A | exact B | rewrite <- A; apply count_true_le].
+Qed.
+
+Theorem C18_Q_entries_distinct : forall h, NoDup (fst (filter_run qle [] h)).
+Proof. exact (run_NoDup Q qle qle_refl). Qed.
+
+Theorem C18_Q_reoffer_refused : forall es e, In e es -> snd (filter_insert qle es e) = false.
+Proof. exact (reoffer_refused Q qle qle_refl). Qed.
+
 (* non-vacuity: a concrete history with ties and duplicates, with refusals and removals *)
 Example C18_nonvacuous :
   filter_run qle [] [(3,3); (3,3); (2,5); (5,1); (1,4); (4,4); (1,1)]
@@ -78,3 +96,6 @@ Print Assumptions C18_accept_removes_exactly_dominated.
 Print Assumptions C18_pareto_front.
 Print Assumptions C18_update.
 Print Assumptions C18_Q_front.
+Print Assumptions C18_Q_size.
+Print Assumptions C18_Q_entries_distinct.
+Print Assumptions C18_Q_reoffer_refused.
